@@ -286,8 +286,6 @@ Proof.
       repeat match goal with |- context [if ?c then _ else _] => destruct c end; unfold TQuiet; cs; repeat split; auto.
 Qed.
 
-Lemma pend_errs (e : verr) : True. Proof. exact I. Qed.
-
 Lemma add_vote_pend v peer s s' o :
   cs_halted s = false -> Pend s -> add_vote E v peer s = (s', o) -> Pend s'.
 Proof.
